@@ -94,10 +94,22 @@ theorem substArgs_plain (names : List String) (args : List Val) (kw : AList Stri
       simp only [substArgs, h a (by simp), Bool.false_eq_true, if_false]
       rw [ih as (fun x hx => h x (by simp [hx]))]
 
-/-- Without REQUIRED markers the wrapper passes the positional arguments through, drops the
-    bindings of the positionally supplied names, evaluates the rest and lets caller keywords win. -/
+theorem dropMarkers_eq_self (e : AList String Val) (h : markerNames e = []) : dropMarkers e = e := by
+  unfold markerNames at h
+  unfold dropMarkers
+  rw [List.map_eq_nil_iff, List.filter_eq_nil_iff] at h
+  rw [List.filter_eq_self]
+  intro kv hkv
+  have := h kv hkv
+  simpa using this
+
+/-- Without REQUIRED markers — none passed by the caller, none demanded by the signature, and no binding of a
+    parameter the call leaves to Gin that is (or evaluates to) the marker — the wrapper passes the positional
+    arguments through, drops the bindings of the positionally supplied names, evaluates the rest and lets caller
+    keywords win. -/
 theorem wrapper_plain (ev : Val → Val) (c : Cfgable) (cfg : Store) (σ : Scope)
-    (args : List Val) (kwargs : AList String Val) (hp : Plain c args kwargs) :
+    (args : List Val) (kwargs : AList String Val) (hp : Plain c args kwargs)
+    (hnm : markerNames (evalKw ev (popAll (getBindings cfg c.selector σ) (c.sig.args.take args.length))) = []) :
     ∃ op, wrapperCall ev c cfg σ args kwargs = .ok
       ({ args := args,
          kwargs := update (evalKw ev (popAll (getBindings cfg c.selector σ)
@@ -116,7 +128,7 @@ theorem wrapper_plain (ev : Val → Val) (c : Cfgable) (cfg : Store) (σ : Scope
   simp only [hva, Bool.false_eq_true, if_false, hreq, List.map_nil, hcr]
   simp only [phaseC, hsub, hp.sig, List.filter_nil, List.append_nil,
     List.isEmpty_nil, Bool.not_true, Bool.false_eq_true, if_false, List.contains_nil,
-    Bool.not_false, hft]
+    Bool.not_false, hft, hnm, dropMarkers_eq_self _ hnm]
   exact ⟨_, rfl⟩
 
 /-- C01, at the wrapper: (a) positional arguments pass through unchanged; (b) every caller keyword
@@ -125,6 +137,7 @@ theorem wrapper_plain (ev : Val → Val) (c : Cfgable) (cfg : Store) (σ : Scope
     never also passed by keyword (unless the caller did so). -/
 theorem call_delivers (ev : Val → Val) (c : Cfgable) (cfg : Store) (σ : Scope)
     (args : List Val) (kwargs : AList String Val) (hp : Plain c args kwargs)
+    (hnm : markerNames (evalKw ev (popAll (getBindings cfg c.selector σ) (c.sig.args.take args.length))) = [])
     (hkw : (keys kwargs).Nodup) :
     ∃ d op, wrapperCall ev c cfg σ args kwargs = .ok (d, op) ∧
       d.args = args ∧
@@ -133,7 +146,7 @@ theorem call_delivers (ev : Val → Val) (c : Cfgable) (cfg : Store) (σ : Scope
         lookup p d.kwargs =
           if p ∈ c.sig.args.take args.length then none
           else (lookup p (getBindings cfg c.selector σ)).map ev) := by
-  obtain ⟨op, h⟩ := wrapper_plain ev c cfg σ args kwargs hp
+  obtain ⟨op, h⟩ := wrapper_plain ev c cfg σ args kwargs hp hnm
   refine ⟨_, op, h, rfl, ?_, ?_⟩
   · intro k v hk
     simp only []
@@ -145,28 +158,51 @@ theorem call_delivers (ev : Val → Val) (c : Cfgable) (cfg : Store) (σ : Scope
       lookup_popAll _ (getBindings_nodup cfg c.selector σ)]
     by_cases hm : p ∈ c.sig.args.take args.length <;> simp [hm]
 
+theorem keys_sublist_of_sublist {l₁ l₂ : AList String Val} (h : l₁.Sublist l₂) : (keys l₁).Sublist (keys l₂) :=
+  List.Sublist.map _ h
+
+/-- what `phaseC` hands on by keyword comes from the caller's keywords or from the evaluated bindings -/
+theorem phaseC_keys (c : Cfgable) (a : PhaseA) (args : List Val) (kwargs evd0 : AList String Val) (d : Delivered)
+    (h : phaseC c a args kwargs evd0 = .ok d) (k : String) (hk : k ∈ keys d.kwargs) :
+    k ∈ keys kwargs ∨ k ∈ keys evd0 := by
+  unfold phaseC at h
+  simp only [] at h
+  split at h
+  · cases h
+  · simp only [Except.ok.injEq] at h
+    subst h
+    simp only [mem_keys_update] at hk
+    rcases hk with hk | hk
+    · right
+      have h1 := (keys_sublist_of_sublist (popAll_sublist (dropMarkers evd0) a.reqNames)).subset hk
+      exact (keys_sublist_of_sublist (l₁ := dropMarkers evd0) (l₂ := evd0) List.filter_sublist).subset h1
+    · left
+      exact (keys_sublist_of_sublist (popAll_sublist kwargs _)).subset hk
+
 /-- Nothing else is injected: every keyword the function receives was either passed by the
-    caller or is bound for it in the overlay (function defaults stay the function's). -/
+    caller or is bound for it in the overlay (function defaults stay the function's) — for every call that
+    goes through, markers or not. -/
 theorem call_injects_only_bound (ev : Val → Val) (c : Cfgable) (cfg : Store) (σ : Scope)
-    (args : List Val) (kwargs : AList String Val) (hp : Plain c args kwargs)
+    (args : List Val) (kwargs : AList String Val)
     (d : Delivered) (op : AList String Val)
     (h : wrapperCall ev c cfg σ args kwargs = .ok (d, op)) (k : String)
     (hk : k ∈ keys d.kwargs) :
     k ∈ keys kwargs ∨ k ∈ keys (getBindings cfg c.selector σ) := by
-  obtain ⟨op', h'⟩ := wrapper_plain ev c cfg σ args kwargs hp
-  rw [h'] at h
-  simp only [Except.ok.injEq, Prod.mk.injEq] at h
-  obtain ⟨hd, _⟩ := h
-  subst hd
-  simp only [mem_keys_update, evalKw, keys_map_val] at hk
-  rcases hk with hk | hk
-  · right
-    rw [← lookup_isSome_iff] at hk ⊢
-    rw [lookup_popAll _ (getBindings_nodup cfg c.selector σ)] at hk
-    by_cases hm : k ∈ c.sig.args.take args.length
-    · simp [hm] at hk
-    · simpa [hm] using hk
-  · exact Or.inl hk
+  unfold wrapperCall phaseA at h
+  by_cases hnv : (args.drop (c.sig.args.take args.length).length).any Val.isRequired = true
+  · simp only [hnv, ↓reduceIte] at h; cases h
+  · simp only [hnv, Bool.false_eq_true, if_false] at h
+    split at h
+    · cases h
+    · rename_i d' hd'
+      simp only [Except.ok.injEq, Prod.mk.injEq] at h
+      obtain ⟨h1, _⟩ := h
+      subst h1
+      rcases phaseC_keys c _ args kwargs _ d' hd' k hk with hk' | hk'
+      · exact Or.inl hk'
+      · right
+        simp only [evalKw, keys_map_val] at hk'
+        exact (keys_sublist_of_sublist (popAll_sublist _ _)).subset hk'
 
 /-! Non-vacuity: a concrete scoped store and call that meets the hypotheses. -/
 def demoCfg : Store :=
